@@ -364,6 +364,9 @@ class GridSearcher(StochasticSearcher):
             metric=self._metric,
             shuffle_config=self._shuffle_config,
         )
+        # The order of the grid depends on the random seed at construction
+        new_searcher.hp_keys = self.hp_keys
+        new_searcher.hp_values_combinations = self.hp_values_combinations
         new_searcher._restore_from_state(state)
         return new_searcher
 
